@@ -23,7 +23,7 @@ const modPath = "github.com/resgateio/resgate"
 // rules work on. Everything is rebuilt from the working tree on every run.
 type Prog struct {
 	roleMemo    map[string]*ssa.Function
-	implDepth   int // recursion depth of helperImplies
+	implDepth   int                                  // recursion depth of helperImplies
 	boundMakers map[*ssa.Function][]*ssa.MakeClosure // bound-method wrapper -> the places that make the method value
 	fieldSeen   map[string]string                    // anchor -> type, recorded for `resverif anchors`
 	Dir         string
@@ -488,7 +488,7 @@ func (p *Prog) Field(q string) *types.Var {
 			if _, named := anchorFieldTypes[q[:i+1]+f.Name()]; named {
 				continue
 			}
-			if typeShape(f.Type()) == want {
+			if typeShape(f.Type()) == want || typeShape(f.Type().Underlying()) == want {
 				hit = k
 				n++
 			}
